@@ -66,7 +66,7 @@ ASSUMES = ['top-level keys: integers (any sign) and strings that are not optiona
            'correspondence)',
            'parameter files: keys are lower-case ASCII identifiers that are not keywords; values are None, bool, int, '
            'finite float, str (any characters) and lists / string-keyed dicts of these']
-TIMEOUT = {'quick': 10, 'thorough': 30}
+TIMEOUT = {'quick': 60, 'thorough': 120}   # generous: the first case of a worker pays the imports on a busy machine
 
 INF = float('inf')
 
@@ -318,7 +318,8 @@ NUM_ALPHA = ' +-_.019eEinf'
 NUM_CORPUS = ['1_0', ' 12 ', '+3', '1e5', 'Infinity', '-nan', '1_', '_1', '1__0', '.5', '5.', '.', '1e', '1e+',
               '1_0.0_1e1_0', '0x10', 'nan ', '\t1', '1 2', '--1', 'iNf', 'infinit', '1.e1', '1e1.0', '- 1', '', ' ',
               '-0', '+0.0', '007', '1e-5', '-.5e+1_0', 'INFINITY', 'NaN', '+inf', 'in f', '1.0000', '-0.0000', '0.0312',
-              '12345678901234567890123', '1e2e3', 'e5', '1ee5', '.e1', '1._5', '1_.5', '1e_5', '1e5_0', '9.99e+30']
+              '12345678901234567890123', '1e2e3', 'e5', '1ee5', '.e1', '1._5', '1_.5', '1e_5', '1e5_0', '9.99e+30',
+              '\n12', '1\x0b', '\x0c1.5\r', '\r\n-7\t ', '1\n2', ' \x0b', '+ 1', '1 .5', 'nan\n', '\tinf', '1e 5']
 
 
 def generate(tier, rng):
